@@ -39,6 +39,7 @@ PROPS = {
     "C06": dict(targets=["Properties_C06.vo"], families=[("chunks", 1.0), ("items", 0.3)], codes=[], extra="c06", expand=True),
     "C07": dict(targets=["Properties_C07.vo"], families=[("garbage", 1.0), ("chunks", 0.5), ("markup_wild", 1.0)], codes=[], extra="c07", expand=True),
     "C20": dict(targets=["Properties_C20.vo"], families=[("chunks", 1.0), ("items", 0.5), ("garbage", 0.5)], codes=[], extra="c20", expand=True),
+    "C10": dict(targets=["Properties_C10.vo"], families=[("markup", 1.0), ("markup_respell", 0.5), ("markup_plain", 0.2), ("markup_wild", 0.3)], codes=[], extra="c10"),
     "C12": dict(targets=["Properties_C12.vo"], families=[], codes=[], special="c12"),
     "C14": dict(targets=["Properties_C14.vo"], families=[], codes=[], special="c14"),
     "C18": dict(targets=["Properties_C18.vo"], families=[("term", 0.5)], codes=[101, 102]),
@@ -75,6 +76,12 @@ def gen_family(family, seed, n):
             lines += gen.gen_chunks_case(r, cid)
         elif family == "garbage":
             lines += gen.gen_garbage_case(r, cid)
+        elif family == "markup":
+            lines += gen.gen_markup_case(r, cid)
+        elif family == "markup_respell":
+            lines += gen.gen_markup_case(r, cid, respell=True)
+        elif family == "markup_plain":
+            lines += gen.gen_plain_case(r, cid)
         elif family == "markup_wild":
             lines += gen.gen_markup_wild_case(r, cid)
         else:
@@ -307,11 +314,36 @@ def oracle_c20(impl_lines):
     return fails
 
 
+def oracle_c10(impl_lines):
+    """the elements decoded from canonical markup are the elements it describes"""
+    fails = []
+    cases, order = vc.split_cases(impl_lines)
+    for cid in order:
+        want, got, active = None, None, False
+        for l in cases[cid] + ["> END"]:
+            if l.startswith("> # WANT "):
+                want = []
+            elif l.startswith("> # WANTE "):
+                want.append(l[len("> # WANTE "):].strip())
+            elif l.startswith("> M encode") or l.startswith("> M ets"):
+                got = []
+                active = True
+            elif l.startswith("E ") and active:
+                got.append(l[2:].strip())
+            elif l.startswith("> ") and active:
+                active = False
+                if want is not None and got != want:
+                    k = next((i for i in range(max(len(got), len(want))) if i >= len(got) or i >= len(want) or got[i] != want[i]), 0)
+                    fails.append((cid, "element %d decoded as [%s], the markup describes [%s] (%d decoded, %d described)" % (
+                        k, got[k] if k < len(got) else "<nothing>", want[k] if k < len(want) else "<nothing>", len(got), len(want))))
+    return fails
+
+
 def oracle_c07(impl_lines):
     return oracle_c05(impl_lines)
 
 
-EXTRA = {"c16": oracle_c16, "c15": oracle_c15, "c05": oracle_c05, "c06": oracle_c06, "c20": oracle_c20, "c07": oracle_c07}
+EXTRA = {"c16": oracle_c16, "c15": oracle_c15, "c05": oracle_c05, "c06": oracle_c06, "c20": oracle_c20, "c07": oracle_c07, "c10": oracle_c10}
 
 
 def known_for(pid):
